@@ -35,7 +35,8 @@ RULE = ("every documented goalign command with representative flags, on random n
         "-k commands and a reformat chain of 0-5 formats, the last one possibly paml / tnt, against the direct reformat; seqboot + compute distance against distboot for 5 models; cli_seeded: exact predicted bytes. Non-trivial = the "
         "command succeeded and wrote at least 20 bytes (or it is an error-path case with at least two invalid arguments)")
 PARTIAL = ["the bytes of each individual command are not modelled here (C01-C10, C12-C16 model the operations; exceptions: the seeded commands "
-           "of `cli_seeded`, and `divide` / `identical`, whose files / answer are predicted from the Phylip parser model, the writers and the "
+           "of `cli_seeded`, `reformat paml` (writer model Model/Fmt/Paml.lean, also compared with the library writer by the C02 `write paml` "
+           "cases; no theorem: a write-only format), and `divide` / `identical`, whose files / answer are predicted from the Phylip parser model, the writers and the "
            "model of Identical in Model/Identical.lean - characterised by the C01 theorems identical_iff_same_records / identicalRows_spec and "
            "compared with the library by the C01 harness op `identical`); C11's theorems are about "
            "the sources of nondeterminism, seeding, thread independence of the pool / ordered collection, distboot = seqboot + distance, "
@@ -429,7 +430,7 @@ def gen(rng, tier):
         yield c
     # --- exact bytes of two unseeded commands nobody else owns: divide (files per alignment / group), identical -----
     from driver import cligen
-    for c in cligen.cases(rng, ['divide', 'identical', 'nalign-phylip'], 30 if quick else 300):
+    for c in cligen.cases(rng, ['divide', 'identical', 'nalign-phylip', 'reformat-paml'], 30 if quick else 300):
         yield c
 
 
